@@ -588,7 +588,7 @@ func runC13(c *Ctx) {
 
 func runC14(c *Ctx) {
 	p, r := c.P, c.R
-	r.Explanation = "Decides, for both JSON formatters (sibling implementations that must agree): the value encoded is a struct whose JSON members are exactly created_at, event_type and payload, filled from e.CreatedAt, e.Type and e.Payload; a json.Encoder over the formatter's own buffer is used (newline-terminated output) and FormattedAs(\"json\", buf.Bytes()) happens only on the err == nil edge of Encode, an encoding error yields (nil, err); no field of the event is assigned; JSONFormatterFilter forwards its event parameter iff the predicate is nil or returned (true, nil), (nil, nil) iff false, (nil, err) on error, and Filter likewise without the nil case; Event.Formatted is accessed only inside FormattedAs (under Event.l for writing) and Format (under Event.l for reading) or through freshly allocated events. JSON round-trip faithfulness for exotic payloads is encoding/json semantics and is not decided. C14.pred call: a stock node calls a func-typed configuration field only where it was found non-nil. C14.errors looks into a repository helper the encode failure is handed to: the helper must return a non-nil error whenever it is given one."
+	r.Explanation = "Decides, for both JSON formatters (sibling implementations that must agree): the value encoded is a struct whose JSON members are exactly created_at, event_type and payload, filled from e.CreatedAt, e.Type and e.Payload; a json.Encoder over the formatter's own buffer is used (newline-terminated output) and FormattedAs(\"json\", buf.Bytes()) happens only on the err == nil edge of Encode, an encoding error yields (nil, err); no field of the event is assigned; JSONFormatterFilter forwards its event parameter iff the predicate is nil or returned (true, nil), (nil, nil) iff false, (nil, err) on error, and Filter likewise without the nil case; Event.Formatted is accessed only inside FormattedAs (under Event.l for writing) and Format (under Event.l for reading) or through freshly allocated events. JSON round-trip faithfulness for exotic payloads is encoding/json semantics and is not decided. C14.pred call: a stock node calls a func-typed configuration field only where it was found non-nil. C14.errors looks into a repository helper the encode failure is handed to: the helper must return a non-nil error whenever it is given one. C14.table pairing: every section of Event.l is released on every path."
 	r.NotDecided = []string{"round-trip faithfulness of encoding/json for arbitrary payloads (A4)"}
 	c.lockControls()
 	tb := p.NewTerms(nil)
@@ -875,6 +875,10 @@ func runC14(c *Ctx) {
 	// last-writer-wins means REPLACING an entry: nothing writes through, appends into or copies
 	// onto bytes that Format has already handed out
 	c.ruleFormatTableWrites("C14.table")
+	// ... and every section of Event.l is released on every path (a read lock leaked on an early return blocks the next FormattedAs for good)
+	c.pairingRule("C14.table", func(fn *ssa.Function) bool {
+		return PkgPathOf(fn) == PkgRoot && fn.Signature.Recv() != nil && typeShort(fn.Signature.Recv().Type()) == "eventlogger.Event"
+	}, false)
 	must := c.MustLocks()
 	accs := p.CollectAccesses(p.RepoFuncs(), must, func(o string) bool { return o == "eventlogger.Event" })
 	n := 0
